@@ -24,6 +24,10 @@ CLAIMED["C10"] = dict(cat="exploration",
    text="Seeded simulation of two commands with separate handles on one SimStore (backup||prune, prune||backup, backup||backup), every backend call of both a scheduling gate; 70% of runs place the second command fully or partly at a drawn position of the first (actor-segmented policy), the rest use random/PCT/starve policies. At every prefix of the combined mutation log that removes a pack or publishes a snapshot an independent decoder checks that every blob referenced by a visible snapshot is physically present; both commands must return (no hang, no panic); after a follow-up prune inside keep-delete, and again after keep-delete has passed on the simulated clock and another prune ran, every snapshot reads back equal to its model and check(read_data) is clean.",
    ref="5 C10", note="keep-delete is 1 day, the simulated overlap seconds to minutes (the premise). A command that detects the other one and returns Err is counted, not flagged: the property is about data, not about availability. Interleavings are at backend-call granularity.",
    tech="deterministic simulation: two actors interleaved by a seeded scheduler at backend-op granularity, prefix audit + reference-model read-back")
+CLAIMED["C05"] = dict(cat="fault_enumeration",
+   text="Repositories are built by generated histories (several index files, duplicate blobs, marked packs, tiny tree packs); then for a sample (quick) or all (thorough) stored files except config and keys, each of {remove, truncate, bit flip at structural and seeded positions, extend, swap with sibling, drop/duplicate one index entry} is applied to a frozen copy, and check(read_data) plus read-back of every snapshot run on fresh handles. Violation iff check reports no error while some snapshot does not read back equal to its model; the undamaged state is the control (must be check-clean and restorable).",
+   ref="5 C05", note="Key files are not damaged (master-key credentials). A removed snapshot file is one snapshot less, not a damage check could notice. Panics of detached library threads while the call itself returns are counted, not flagged.",
+   tech="deterministic simulation: stored-byte fault enumeration on frozen store states, check verdict vs reference-model read-back")
 NOT_YET = {}
 NA = {
  "C09": "pure function of its arguments (snapshot list, keep options, explicit 'now'): no schedule, clock read, I/O, fault or history for a simulator to own; see DESIGN.md section 6",
